@@ -12,6 +12,31 @@ def subsets(u):
     return [list(c) for n in range(len(u) + 1) for c in itertools.combinations(u, n)]
 
 
+def run_sets(run, plan):
+    """Run the scenarios; a scenario during which the process dies (a Go fatal error cannot be recovered: e.g. unbounded
+    recursion) is pinned down by running the following scenarios one by one, recorded as a crash, and the rest is resumed."""
+    evs, i = [], 0
+    while i < len(plan):
+        part, rc, err = run_driver(run, "sets", plan[i:], timeout=3000, allow_fail=True)
+        evs += part
+        i += len(part)
+        if rc == 0:
+            break
+        msg = next((ln.strip() for ln in err.splitlines() if ln.startswith(("fatal error:", "panic:", "runtime:"))), "")
+        if not msg:
+            raise Inconclusive("sets driver failed rc=%d: %s" % (rc, err[-1200:]))
+        while i < len(plan):
+            one, rc1, err1 = run_driver(run, "sets", [plan[i]], timeout=600, allow_fail=True)
+            if rc1 != 0:
+                crash_rejection(run, "sets", msg, [plan[i]])
+                evs.append(None)
+                i += 1
+                break
+            evs += one
+            i += 1
+    return evs
+
+
 def check(run):
     q = run.quick()
     nu = 3
@@ -78,9 +103,11 @@ def check(run):
         for a in ops2[:4]:
             plan.append(dict(nu=nu2, a=a, b=a, same=True, op="Union", px=1, py=2))
             plan.append(dict(nu=nu2, a=a, b=a, same=True, op="SymDiff", px=1, py=2))
-    evs = run_driver(run, "sets", plan, timeout=3000)
+    evs = run_sets(run, plan)
     if len(evs) != len(plan):
         raise Inconclusive("driver returned %d events for %d scenarios" % (len(evs), len(plan)))
+    plan = [p for p, e in zip(plan, evs) if e is not None]
+    evs = [e for e in evs if e is not None]
     segs = [[e] for e in evs]
     validate(run, "sets", "SetsAbsTrace", {}, segs, CLAUSES, plans=[[p] for p in plan])
     run.cov.update(layouts=len(lay), operands=len(operands), scenarios=len(plan), exhaustive=not q,
@@ -99,6 +126,6 @@ def check(run):
 
 
 def replay(run, rp):
-    evs = run_driver(run, "sets", rp["plan"])
+    evs = [e for e in run_sets(run, rp["plan"]) if e is not None]
     validate(run, "sets", "SetsAbsTrace", {}, [[e] for e in evs], CLAUSES, plans=[rp["plan"]])
     return finish(run, reexec=lambda rej: run_driver(run, "sets", rej["plan"]))
